@@ -794,11 +794,7 @@ Proof.
     eapply RealD_only_below; [exact HR|]. eapply only_at_below; eauto. }
   destruct e as [nm c mo|nm mo|nm tgt|nm tgt|nm]; cbn [entry_name] in *.
   - (* regular file *)
-    destruct rel as [|r0 rel'].
-    + rewrite app_nil_r in H.
-      destruct (unlink_if_symlink f dp) as [f0|] eqn:U; [|discriminate].
-      apply (unlink_if_real _ _ _ HR) in U. subst f0.
-      rewrite (write_at_real f dp c mo HR) in H. discriminate.
+    destruct rel as [|r0 rel']; [discriminate|].
     + set (rel := r0 :: rel') in *. set (fp := dp ++ rel) in *.
       destruct (unlink_if_symlink f fp) as [f0|] eqn:U; [|discriminate].
       destruct (unlink_if_lex wd fp f f0 I Hfp HL U) as (K0 & O0 & N0).
@@ -937,7 +933,8 @@ Lemma push_keeps wd pres cwd s o s' ok :
 Proof.
   intros I H. unfold push in H.
   destruct (push_title o) as [|t0 tt] eqn:ET.
-  { injection H as <- _. now apply Keeps_refl. }
+  { destruct o as [t c|t ts es]; [|injection H as <- _; now apply Keeps_refl].
+    destruct (existsb (str_eqb [0%N; c]) (st_names s)); injection H as <- _; now apply Keeps_refl. }
   rewrite <- ET in H.
   destruct (existsb (str_eqb (push_title o)) (st_names s)).
   { injection H as <- _. now apply Keeps_refl. }
@@ -954,19 +951,34 @@ Proof.
   - rewrite removelast_Nms, !clean_abs_names in H.
     destruct (strip_prefix wd (removelast cl)) as [rel|] eqn:SP.
     + apply strip_prefix_spec in SP.
+      destruct (mkdir_all (st_fs s) (Nms wd) 511) as [f0|] eqn:M0.
+      2:{ injection H as <- _. now apply Keeps_refl. }
+      unfold mkdir_all in M0. apply (mkdir_prefixes_noop (st_fs s) 511 wd [] f0 HRwd) in M0. subst f0.
       destruct (mkdir_real (st_fs s) wd rel 511) as [f1|] eqn:M.
       2:{ injection H as <- _. now apply Keeps_refl. }
       destruct (mkdir_real_lex wd 511 rel wd _ f1 I (inside_refl wd) HRwd M) as (K1 & R1 & _).
       rewrite <- SP in R1.
       pose proof (lexreal_of_parent _ _ R1) as HL1.
+      destruct (path_eqb cl wd) eqn:Hclwd; cbn [negb andb] in H.
+      { (* the title denotes the working directory itself: os.Create fails on the directory *)
+        apply path_eqb_spec in Hclwd. subst cl.
+        rewrite (write_at_real f1 wd c 438 (RealD_inv _ _ (proj1 K1))) in H. injection H as <- _. exact K1. }
       destruct (unlink_if_symlink f1 cl) as [f1'|] eqn:U.
       2:{ injection H as <- _. exact K1. }
       destruct (unlink_if_lex wd cl f1 f1' (proj1 K1) Hcl HL1 U) as (K2 & O2 & N2).
       assert (K12 : Keeps wd (st_fs s) f1') by (eapply Keeps_trans; eauto).
       assert (HL2 : lexreal f1' [] cl = true) by (rewrite (lexreal_only_at _ _ _ O2); exact HL1).
       destruct (write_at f1' (Nms cl) c 438) as [f2|] eqn:Wr.
-      * injection H as <- _. simpl.
-        destruct (write_at_lex wd cl c 438 f1' f2 (proj1 K2) Hcl HL2 N2 Wr) as (K3 & _).
+      * destruct (write_at_lex wd cl c 438 f1' f2 (proj1 K2) Hcl HL2 N2 Wr) as (K3 & O3 & (i3 & L3)).
+        assert (K13 : Keeps wd (st_fs s) f2) by (eapply Keeps_trans; eauto).
+        destruct c as [|cp]; [|injection H as <- _; exact K13].
+        destruct (remove_at f2 cl) as [f3|] eqn:Rm; injection H as <- _; [|exact K13]. simpl.
+        assert (Hne : cl <> []).
+        { intros ->. rewrite (write_at_real f1' [] 0%N 438) in Wr; [discriminate|].
+          intros q r E Hq. destruct q; [contradiction | discriminate]. }
+        assert (Hs : sinside wd cl) by (eapply inside_sinside; [exact (proj1 K3) | exact Hcl | exact Hne | rewrite L3; discriminate]).
+        assert (HL3 : lexreal f2 [] cl = true) by (rewrite (lexreal_only_at _ _ _ O3); exact HL2).
+        destruct (remove_at_lex wd cl f2 f3 (proj1 K3) Hs HL3 Rm) as [_ K4].
         eapply Keeps_trans; eauto.
       * injection H as <- _. exact K12.
     + destruct (parent_outside wd cl Hcl SP) as [-> Hwd].
@@ -976,14 +988,15 @@ Proof.
       2:{ injection H as <- _. now apply Keeps_refl. }
       unfold mkdir_all in M.
       apply (mkdir_prefixes_noop (st_fs s) 511 (removelast wd) [] f1 HRp) in M. subst f1.
-      destruct (unlink_if_symlink (st_fs s) wd) as [f1'|] eqn:U.
-      2:{ injection H as <- _. now apply Keeps_refl. }
-      apply (unlink_if_real _ _ _ HRwd) in U. subst f1'.
+      rewrite path_eqb_refl in H. cbn [negb andb] in H.
       rewrite (write_at_real _ wd c 438 HRwd) in H. injection H as <- _. now apply Keeps_refl.
   - rewrite clean_abs_names in H.
     destruct (strip_prefix wd cl) as [rel|] eqn:SP.
     2:{ unfold inside in Hcl. rewrite SP in Hcl. discriminate. }
     apply strip_prefix_spec in SP.
+    destruct (mkdir_all (st_fs s) (Nms wd) 511) as [f0|] eqn:M0.
+    2:{ injection H as <- _. now apply Keeps_refl. }
+    unfold mkdir_all in M0. apply (mkdir_prefixes_noop (st_fs s) 511 wd [] f0 HRwd) in M0. subst f0.
     destruct (mkdir_real (st_fs s) wd rel 511) as [f1|] eqn:M.
     2:{ injection H as <- _. now apply Keeps_refl. }
     destruct (mkdir_real_lex wd 511 rel wd _ f1 I (inside_refl wd) HRwd M) as (K1 & R1 & _).
@@ -1298,3 +1311,77 @@ Lemma times_ok :
   view_at (fst (run0 cfg_fixed os_times)) [b "r"; b "w"; b "t"; b "a"] = VDir 493%N 5%N /\
   view_at (fst (run0 cfg_fixed os_times)) [b "r"; b "w"; b "t"; b "a"; b "f"] = VFile (enc 7 420) 6%N.
 Proof. vm_compute. repeat split. Qed.
+
+(* ---------- further rejections (audit F5) ---------- *)
+
+(* an entry whose name is not below the unpack directory (even if inside the working directory) *)
+Lemma entry_outside_unpack_dir_rejected g pres wd cwd title f e :
+  inside (lex_loc wd title) (lex_loc wd (entry_name e)) = false ->
+  forall t, extract_entry g pres cwd (lex_loc wd title) title f e t = None.
+Proof.
+  intros He t. unfold extract_entry, extract_entry_core, resolve_rel.
+  destruct (entry_rel (lex_loc wd title) title (entry_name e)) as [ns|] eqn:E; [|reflexivity].
+  apply entry_rel_inside in E. rewrite E in He.
+  rewrite (inside_app _ _ _ (inside_refl _)) in He. discriminate.
+Qed.
+
+(* a link (symbolic or hard) whose target, taken relative to the link's directory, is lexically
+   not below the unpack directory *)
+Lemma link_target_outside_rejected g pres cwd dp dirName f nm tgt rel t :
+  entry_rel dp dirName nm = Some rel ->
+  inside dp (link_abs_path (dp ++ rel) tgt) = false ->
+  extract_entry g pres cwd dp dirName f (ESym nm tgt) t = None /\
+  extract_entry g pres cwd dp dirName f (EHard nm tgt) t = None.
+Proof.
+  intros ER Ho.
+  assert (EL : ensure_link f dp (dp ++ rel) tgt = None).
+  { unfold ensure_link. unfold inside in Ho.
+    destruct (strip_prefix dp (link_abs_path (dp ++ rel) tgt)); [discriminate | reflexivity]. }
+  unfold extract_entry, extract_entry_core, resolve_rel; cbn [entry_name]. rewrite ER.
+  destruct (parents_ok f dp rel); [|split; reflexivity].
+  rewrite EL. split; destruct (match rel with [] => fixR g | _ :: _ => false end); reflexivity.
+Qed.
+
+Lemma descend_ok_link f c d a cs r : forall q cur,
+  RealD f cur q -> lookup f (cur ++ q ++ [c]) = Some (NSym d a cs) ->
+  descend_ok f cur (q ++ c :: r) = false.
+Proof.
+  induction q as [|x q IH]; intros cur HR L.
+  - simpl in *. rewrite L. reflexivity.
+  - cbn [app descend_ok]. rewrite (RealD_head _ _ _ _ HR).
+    apply IH; [apply (RealD_step _ _ _ _ HR)|]. rewrite <- app_assoc. exact L.
+Qed.
+
+(* a name whose parent chain below the unpack directory goes through a symbolic link *)
+Lemma entry_through_link_rejected g pres cwd dp dirName f e t q c r d a cs :
+  RealD f [] dp -> RealD f dp q ->
+  entry_rel dp dirName (entry_name e) = Some (q ++ c :: r) -> r <> [] ->
+  lookup f (dp ++ q ++ [c]) = Some (NSym d a cs) ->
+  extract_entry g pres cwd dp dirName f e t = None.
+Proof.
+  intros HRd HRq ER Hr L.
+  assert (PO : parents_ok f dp (q ++ c :: r) = false).
+  { unfold parents_ok.
+    assert (E : removelast (q ++ c :: r) = q ++ c :: removelast r).
+    { rewrite removelast_app by discriminate. f_equal.
+      change (c :: r) with ([c] ++ r). rewrite removelast_app by exact Hr. reflexivity. }
+    rewrite E. destruct (q ++ c :: removelast r) eqn:Eq; [destruct q; discriminate|]. rewrite <- Eq.
+    unfold awalk. pose proof (walk_real f dp FUEL NLINK [] true HRd) as W.
+    destruct (walk FUEL f NLINK [] (Nms dp) true); try contradiction; try reflexivity.
+    simpl in W. subst p. eapply descend_ok_link; eauto. }
+  unfold extract_entry, extract_entry_core, resolve_rel. rewrite ER, PO. reflexivity.
+Qed.
+
+(* audit F3: the hypothesis "files below the working directory share no inode with the outside"
+   (inv_ino) is needed: a pre-populated hard link to an outside file (cp -al, ostree-style
+   checkouts) is truncated in place by a plain named blob of the repaired store *)
+Definition fs2 : fsys :=
+  mkFS [ ([b "r"], NDir); ([b "r"; b "w"], NDir); ([b "victim"], NFile 0); ([b "r"; b "w"; b "old"], NFile 0) ]
+       [ (0, 100%N) ] 1 [] [] [].
+
+Lemma refuted_shared_inode :
+  inside wd0 [b "victim"] = false /\
+  snd (pushes cfg_fixed false wd0 cwd0 (mkStore fs2 []) [PBlob (b "old") 7%N]) = [true] /\
+  view_at (st_fs (fst (pushes cfg_fixed false wd0 cwd0 (mkStore fs2 []) [PBlob (b "old") 7%N]))) [b "victim"]
+  <> view_at fs2 [b "victim"].
+Proof. split; [vm_compute; reflexivity|]. split; [vm_compute; reflexivity | vm_compute; discriminate]. Qed.
